@@ -35,7 +35,9 @@ CONSTANTS IdleTimeout,            \* ms
           Dev_IdleIgnoresTimers,              \* TRUE = the code: the engine announces idle although a wake-up is scheduled
           Dev_InternalActivityKeepsIdleFlag,  \* TRUE = the code: only an external send clears idle_since
           Dev_IdleIgnoresMailbox,             \* TRUE = the code: idle is announced although ticks wait in the run's mailbox
-          WithCancel                          \* model checking: include cancel requests (they bypass the reload lock)
+          Dev_CancelBypassesLock,             \* TRUE = the code before /repo 'fix: cancelling an idle-released run': cancel() went to
+                                              \* the inner adapter (no lock, no reload, no idle clear); FALSE: a cancel is a send
+          WithCancel                          \* model checking: include such cancel requests
 
 VARIABLES now,
           proc,       \* "up" | "down"
@@ -203,10 +205,11 @@ SendForward ==
   /\ inbox' = inbox + 1 /\ sendpc' = "none"
   /\ UNCHANGED <<now, proc, row, nlog, logEnded, loops, gen, active, pactive, timers, eng, tw, start, sfails, faults>>
 
-(* cancel_handler -> WorkflowHandler.cancel_run -> adapter.cancel(): the decorator base class hands cancel() to the INNER *)
-(* adapter, so the cancel tick reaches the mailbox without the reload lock, without a reload and without clearing idle_since  *)
+(* cancel_handler -> WorkflowHandler.cancel_run -> adapter.cancel().  Before the fix the decorator base class handed cancel() *)
+(* to the INNER adapter: the cancel tick reached the mailbox without the reload lock, without a reload and without clearing   *)
+(* idle_since -- and not at all for a released run.  Since the fix a cancel is an ordinary send (SendBegin ... SendForward).  *)
 CancelDirect ==
-  /\ WithCancel /\ proc = "up" /\ gen \in loops /\ active /\ row.exists /\ row.status = "running"
+  /\ WithCancel /\ Dev_CancelBypassesLock /\ proc = "up" /\ gen \in loops /\ active /\ row.exists /\ row.status = "running"
   /\ inbox' = inbox + 1
   /\ UNCHANGED <<now, proc, row, nlog, logEnded, loops, gen, active, pactive, timers, eng, tw, start, sfails, faults, sendpc>>
 
